@@ -32,7 +32,7 @@ m = {
     "engines": [
         {"name": "coq-model+correspondence", "path": "/verif/coq", "serves_properties": sorted(CHECKS),
          "kind_free_text": "Coq 8.16 development (Spec/ ISO 18004, Generated/ tables regenerated from /repo by tools/rs2v.py on every run, Model/ executable Gallina mirror, Proofs/, Properties/); tie = translator + extensional dump cross-check + correspondence of the extracted model (driver/fqm) with the real crate (harness/fqh) + spec oracles run on the implementation's outputs"},
-        {"name": "fuzz-witness-search", "path": "/verif/fuzz", "serves_properties": ["C01", "C02", "C03", "C04", "C05", "C06", "C07", "C08", "C09", "C10", "C11", "C12", "C15", "C16", "C17", "C18"],
+        {"name": "fuzz-witness-search", "path": "/verif/fuzz", "serves_properties": ["C01", "C02", "C03", "C04", "C05", "C06", "C07", "C08", "C09", "C10", "C11", "C12", "C13", "C14", "C15", "C16", "C17", "C18"],
          "kind_free_text": "auxiliary: libFuzzer differential search between /repo and the pinned reference copy refimpl/ for inputs on which they differ; candidates are decided by the spec oracles of the engine above; skipped when the tree equals the reference; never a verdict, replaces no theorem"},
     ],
     "checks": [CHECKS[p] for p in allp if p in CHECKS],
